@@ -116,9 +116,12 @@ class C49(dst.Check):
             a.append('%s=%s' % (k, plan['faults'][k]))
         return a
 
-    # Pool workers keep one `parmapsim server` each (fork server: the engine start-up, 20-100 ms of dynamic linking,
-    # is paid once; each plan runs in a forked child). Everything outside the pool (violation gate, shrinking,
-    # replay, --dump) executes a fresh parmapsim process per plan through dst.run_proc.
+    # Pool workers keep one `parmapsim server` each: plans run one after the other inside that process (process
+    # creation - exec or fork - costs 5-25 ms here and anti-scales with concurrency; a plan itself costs 1-5 ms).
+    # After a clean plan no thread is left and all lazy initialisation was done by the warm-up, so a plan behaves
+    # as in a fresh process (bin/selftest-detsched compares server and stand-alone hashes). After any verdict other
+    # than ok the server exits and is restarted. Everything outside the pool (violation gate, shrinking, replay,
+    # --dump) executes a fresh parmapsim process per plan through dst.run_proc.
     _server = None
 
     def _server_run(self, exe, args):
@@ -137,6 +140,7 @@ class C49(dst.Check):
                 continue
             buf = b''
             fd = sv.stdout.fileno()
+            eof = False
             while True:
                 r, _, _ = select.select([fd], [], [], 90)
                 if not r:
@@ -145,24 +149,30 @@ class C49(dst.Check):
                     raise dst.Infra('parmapsim server silent for 90 s: %s' % ' '.join(args))
                 chunk = os.read(fd, 65536)
                 if not chunk:
+                    eof = True
                     break
                 buf += chunk
                 if buf.endswith(b'\n') and buf[buf.rfind(b'\n', 0, -1) + 1:].startswith(b'END '):
                     break
             lines = buf.decode(errors='replace').splitlines()
-            if not lines or not lines[-1].startswith('END '):
+            if eof or not lines or not lines[-1].startswith('END '):
+                # the server died while running this plan: a crash of the code under test (or the 60 s alarm)
+                rc = sv.wait()
                 C49._server = None
-                if attempt == 0:
+                if not buf and attempt == 0:
                     continue
-                raise dst.Infra('parmapsim server died: %s' % buf[-300:])
-            end = dict(kv.split('=', 1) for kv in lines[-1].split()[1:] if '=' in kv)
-            rc, sig = int(end.get('rc', -1)), int(end.get('sig', 0))
-            if sig == 14:
-                raise dst.Infra('parmapsim wall-clock timeout (60 s): %s' % ' '.join(args))
-            body = lines[:-1]
+                if rc == -14:
+                    raise dst.Infra('parmapsim wall-clock timeout (60 s): %s' % ' '.join(args))
+                body = lines
+            else:
+                end = dict(kv.split('=', 1) for kv in lines[-1].split()[1:] if '=' in kv)
+                rc = int(end.get('rc', -1))
+                body = lines[:-1]
+                if rc != 0:
+                    C49._server = None  # it exits by itself after a violation
             out = '\n'.join(l for l in body if not l.startswith('DETSCHED '))
             err = '\n'.join(l for l in body if l.startswith('DETSCHED ') or not l[:1].isupper())
-            return (rc if sig == 0 else -sig), out, err
+            return rc, out, err
         raise dst.Infra('parmapsim server could not be started')
 
     def run(self, plan, scratch):
